@@ -311,21 +311,15 @@ theorem C38_iterator_yields_shifted_values {tf : Nat} (htf : 1 < tf) (P : Prog) 
 example : Steps 5 [] ⟨[.goal (.atom "true")], ⟨[], 0⟩⟩ ⟨[], ⟨[], 0⟩⟩ :=
   Steps.single (by rw [step_goal_atom (by omega)]; simp [classify, stepGoal])
 
-/-- a goal that does its own reset/shift also "does not shift" in the sense of
-    `C38_reset_without_shift`: the inner reset catches the shift -/
-example : ∃ st', Steps 5 [] ⟨[.goal (resetG (shiftG (.atom "a")) (.var "B") (.var "C"))], ⟨[], 0⟩⟩ ⟨[], st'⟩ := by
-  refine ⟨_, ?_⟩
-  refine .head (c' := ⟨[.goal (shiftG (.atom "a")), .marker (.var "B") (.var "C")], ⟨[], 0⟩⟩) ?_ ?_
-  · rw [resetG, step_goal_str (by omega)]; simp [classify, stepGoal]
-  refine .head ?_ ?_
-  · exact C38_shift_captures_up_to_nearest_reset (by omega) [] (.atom "a") [] (.var "B") (.var "C") [] ⟨[], 0⟩
-  refine .head (c' := ⟨[.goal (mkUnify (.var "B") (.atom "a"))], ⟨[("C", contTerm [])], 1⟩⟩) ?_ ?_
-  · rw [mkUnify, step_goal_str (by omega)]
-    simp [classify, stepGoal, callPred, builtin, classifyB, runB, ofUnify, unify, walk, lookup, bindVar,
-      occurs, occursList, contTerm, encodeGoals, Term.nil]
-  refine Steps.single (b := ⟨[], ⟨[("B", .atom "a"), ("C", contTerm [])], 2⟩⟩) ?_
-  rw [mkUnify, step_goal_str (by omega)]
-  simp [classify, stepGoal, callPred, builtin, classifyB, runB, ofUnify, unify, walk, lookup, bindVar,
-    occurs, occursList]
+/-- the hypotheses of the reset/shift law are satisfiable (`Pre = true`), and the iterator law
+    instantiates to a concrete generator -/
+example (K : List Frame) (st : St) :
+    Steps 5 [] ⟨.goal (resetG (conjG (.atom "true") (conjG (shiftG (.int 1)) (.atom "rest"))) (.var "B") (.var "C")) :: K, st⟩
+      ⟨.goal (mkUnify (.var "C") (.str "cont" [kGoal [.atom "rest"]])) :: .goal (mkUnify (.var "B") (.int 1)) :: K, st⟩ :=
+  (C38_reset_shift_law (by omega) [] (.atom "true") (.int 1) (.atom "rest") (.var "B") (.var "C") K
+    (Steps.single (by rw [step_goal_atom (by omega)]; simp [classify, stepGoal]))).1
+
+example : Iterates 5 [] (genGoal [.int 1, .int 2, .int 3]) [.int 1, .int 2, .int 3] :=
+  C38_iterator_yields_shifted_values (by omega) [] _
 
 end Scryer.Delim
